@@ -6,14 +6,27 @@
 //	until <12 opts> SCRIPT                           wait.BackoffUntil(f, recording(mgr), true, stop); f follows SCRIPT
 //	                                                 (e=error s=success d=done x=close stop)     => recs P:E:D:GAP,...
 //	wdstart ID T SCOPE SCRIPT                        real frps (server.NewService, heartbeatTimeout=T s, tcpMux off,
-//	                                                 auth scope HeartBeats iff SCOPE=1) + scripted raw client:
-//	                                                 login, then pings v<ms>/i<ms> (valid / wrong key), then silence
-//	wdwait ID                                        => closed C sent=v:t,i:t,.. pok=N perr=M | open H sent=…
-//	cwstart ID I T SCRIPT                            real frpc (client.NewService, heartbeatInterval=I, heartbeatTimeout=T,
-//	                                                 tcpMux off) against a scripted raw server; SCRIPT items:
-//	                                                 p<k> answer k pings then fall silent | b<k> answer k pings, then a Pong
-//	                                                 with error | r refuse the login | then the next connection
-//	cwwait ID                                        => per connection: kind:dt,... (ms)
+//	                                                 auth scope HeartBeats iff SCOPE=1, an HTTP server plugin on NewProxy)
+//	                                                 + scripted raw client: login, then items
+//	                                                   v<ms>/i<ms>  ping with valid / wrong key after ms
+//	                                                   n<ms>/<ph>/<hold>  NewProxy (tcp, own remote port) after ms; its
+//	                                                      registration is held for <hold> ms at phase p (server plugin),
+//	                                                      c / r / a (gates reg.checked / reg.ran / reg.added)
+//	                                                   x<ms>  cut the connection after ms (last item)
+//	                                                 then silence.  After the session ended (and the held registration
+//	                                                 returned) + 600 ms a fresh session registers the same names/ports.
+//	wdwait ID                                        => closed|cut C sent=v:t,i:t,.. pok=N perr=M px=j:resp:rereg,.. | open H …
+//	cwstart ID I T SET SCRIPT                        real frpc (client.NewService with proxy set SET, heartbeatInterval=I,
+//	                                                 heartbeatTimeout=T, tcpMux off) against a scripted raw server; SCRIPT
+//	                                                 items: p<k> answer k pings then fall silent | b<k> answer k pings, then
+//	                                                 a Pong with error | r refuse the login | c<ms> answer all pings, cut the
+//	                                                 connection after ms; each item may carry reloads
+//	                                                 (Service.UpdateAllConfigurer): @<ms>:<set> while connected, ms after the
+//	                                                 login; @o<ms>:<set> ms after this connection ended / was refused and
+//	                                                 before the next login is answered.  <set> = 0 | a1+b2+… (name+variant)
+//	cwwait ID                                        => per connection: kind:gap:close:pinggaps:regs;regs… (ms; regs = the
+//	                                                 proxies registered on this connection 350 ms after the login and
+//	                                                 after each reload, ~ = connection ended before)
 //
 // All durations are integer ns (ms for the watchdog scenarios); nothing here is compared literally:
 // the Lean side checks that every observed delay / closure time lies in the model's interval.
@@ -21,10 +34,14 @@ package main
 
 import (
 	"context"
+	"encoding/json"
 	"fmt"
 	"io"
 	"math/rand"
 	"net"
+	"net/http"
+	"os"
+	"sort"
 	"strconv"
 	"strings"
 	"sync"
@@ -38,6 +55,7 @@ import (
 	"github.com/fatedier/frp/pkg/msg"
 	netpkg "github.com/fatedier/frp/pkg/util/net"
 	"github.com/fatedier/frp/pkg/util/util"
+	"github.com/fatedier/frp/pkg/util/verifhook"
 	"github.com/fatedier/frp/pkg/util/version"
 	"github.com/fatedier/frp/pkg/util/wait"
 	"github.com/fatedier/frp/server"
@@ -174,7 +192,87 @@ func freePort() int {
 	return p
 }
 
+// ---- holding a registration at a chosen point: server plugin latency, or a gate inside RegisterProxy
+
+type wdHold struct {
+	point string // "plug" | "reg.checked" | "reg.ran" | "reg.added"
+	dur   time.Duration
+}
+
+var (
+	wdHoldMu   sync.Mutex
+	wdHolds    = map[string]wdHold{} // proxy name -> hold (used once: the re-registration is not held)
+	wdPlugOnce sync.Once
+	wdPlugAddr string
+	wdPortCtr  int
+)
+
+func wdTakeHold(name, point string) time.Duration {
+	wdHoldMu.Lock()
+	defer wdHoldMu.Unlock()
+	h, ok := wdHolds[name]
+	if !ok || h.point != point {
+		return 0
+	}
+	delete(wdHolds, name)
+	return h.dur
+}
+
+// one HTTP server plugin (op NewProxy) shared by all frps instances of this process: answers
+// "unchanged", after the latency scripted for that proxy name
+func wdPlugin() string {
+	wdPlugOnce.Do(func() {
+		l, err := net.Listen("tcp", "127.0.0.1:0")
+		if err != nil {
+			panic(err)
+		}
+		wdPlugAddr = l.Addr().String()
+		mux := http.NewServeMux()
+		mux.HandleFunc("/h", func(rw http.ResponseWriter, r *http.Request) {
+			var req struct {
+				Content struct {
+					ProxyName string `json:"proxy_name"`
+				} `json:"content"`
+			}
+			body, _ := io.ReadAll(r.Body)
+			_ = json.Unmarshal(body, &req)
+			if d := wdTakeHold(req.Content.ProxyName, "plug"); d > 0 {
+				time.Sleep(d)
+			}
+			rw.Header().Set("Content-Type", "application/json")
+			_, _ = rw.Write([]byte(`{"reject":false,"unchange":true}`))
+		})
+		go func() { _ = http.Serve(l, mux) }()
+		verifhook.Set(func(point string, keys []string) {
+			if len(keys) >= 3 && strings.HasPrefix(point, "reg.") {
+				if d := wdTakeHold(keys[2], point); d > 0 {
+					time.Sleep(d)
+				}
+			}
+		})
+	})
+	return wdPlugAddr
+}
+
+// a remote port outside the ephemeral range that is free right now
+func wdPort() int {
+	wdHoldMu.Lock()
+	defer wdHoldMu.Unlock()
+	for try := 0; try < 200; try++ {
+		wdPortCtr++
+		p := 11000 + (os.Getpid()*131+wdPortCtr*7)%18000
+		l, err := net.Listen("tcp", fmt.Sprintf("127.0.0.1:%d", p))
+		if err != nil {
+			continue
+		}
+		l.Close()
+		return p
+	}
+	panic("no free port")
+}
+
 func (w *waitEngine) serverFor(T int, scope bool) int {
+	plug := wdPlugin()
 	w.mu.Lock()
 	defer w.mu.Unlock()
 	key := fmt.Sprintf("%d/%v", T, scope)
@@ -186,6 +284,7 @@ func (w *waitEngine) serverFor(T int, scope bool) int {
 		cfg := &v1.ServerConfig{}
 		cfg.BindAddr = "127.0.0.1"
 		cfg.BindPort = freePort()
+		cfg.ProxyBindAddr = "127.0.0.1"
 		cfg.Auth.Token = waitToken
 		if scope {
 			cfg.Auth.AdditionalScopes = []v1.AuthScope{v1.AuthScopeHeartBeats}
@@ -193,6 +292,7 @@ func (w *waitEngine) serverFor(T int, scope bool) int {
 		f := false
 		cfg.Transport.TCPMux = &f
 		cfg.Transport.HeartbeatTimeout = int64(T)
+		cfg.HTTPPlugins = []v1.HTTPPluginOptions{{Name: "verif-c14", Addr: plug, Path: "/h", Ops: []string{"NewProxy"}}}
 		cfg.Complete()
 		svr, err := server.NewService(cfg)
 		if err != nil {
@@ -207,8 +307,10 @@ func (w *waitEngine) serverFor(T int, scope bool) int {
 }
 
 type wdItem struct {
-	valid bool
+	kind  byte // 'v' valid ping, 'i' wrong-key ping, 'n' NewProxy, 'x' cut
 	ms    int
+	phase byte // n: 'p' plugin, 'c' reg.checked, 'r' reg.ran, 'a' reg.added
+	hold  int  // n: ms the registration is held at `phase`
 }
 
 func parseWdScript(s string) []wdItem {
@@ -217,39 +319,68 @@ func parseWdScript(s string) []wdItem {
 		return items
 	}
 	for _, p := range strings.Split(s, ",") {
-		items = append(items, wdItem{p[0] == 'v', atoi(p[1:])})
+		it := wdItem{kind: p[0]}
+		if p[0] == 'n' {
+			f := strings.Split(p[1:], "/")
+			it.ms, it.phase, it.hold = atoi(f[0]), f[1][0], atoi(f[2])
+		} else {
+			it.ms = atoi(p[1:])
+		}
+		items = append(items, it)
 	}
 	return items
 }
 
-func runWd(port, T int, scope bool, items []wdItem) string {
+var wdPoints = map[byte]string{'p': "plug", 'c': "reg.checked", 'r': "reg.ran", 'a': "reg.added"}
+
+// wdLogin speaks the client side of the login by hand
+func wdLogin(port int) (net.Conn, io.ReadWriter, string) {
 	conn, err := net.DialTimeout("tcp", fmt.Sprintf("127.0.0.1:%d", port), 3*time.Second)
 	if err != nil {
-		return "infra-dial"
+		return nil, nil, "infra-dial"
 	}
-	defer conn.Close()
 	now := time.Now().Unix()
 	if err := msg.WriteMsg(conn, &msg.Login{
 		Version: version.Full(), Timestamp: now, PrivilegeKey: util.GetAuthKey(waitToken, now),
 	}); err != nil {
-		return "infra-login-write"
+		conn.Close()
+		return nil, nil, "infra-login-write"
 	}
 	_ = conn.SetReadDeadline(time.Now().Add(5 * time.Second))
 	m, err := msg.ReadMsg(conn)
 	if err != nil {
-		return "infra-login-read"
+		conn.Close()
+		return nil, nil, "infra-login-read"
 	}
 	if lr, ok := m.(*msg.LoginResp); !ok || lr.Error != "" {
-		return "login-refused"
+		conn.Close()
+		return nil, nil, "login-refused"
 	}
 	_ = conn.SetReadDeadline(time.Time{})
-	t0 := time.Now()
 	rw, err := netpkg.NewCryptoReadWriter(conn, []byte(waitToken))
 	if err != nil {
-		return "infra-crypto"
+		conn.Close()
+		return nil, nil, "infra-crypto"
 	}
+	return conn, rw, ""
+}
+
+type wdPx struct {
+	name    string
+	port    int
+	holdEnd time.Time
+}
+
+func runWd(id string, port, T int, scope bool, items []wdItem) string {
+	conn, rw, e := wdLogin(port)
+	if e != "" {
+		return e
+	}
+	defer conn.Close()
+	t0 := time.Now()
 	var mu sync.Mutex
 	pok, perr := 0, 0
+	resp := map[string]string{}
 	closedAt := time.Duration(-1)
 	closed := make(chan struct{})
 	go func() {
@@ -262,18 +393,26 @@ func runWd(port, T int, scope bool, items []wdItem) string {
 				close(closed)
 				return
 			}
-			if p, ok := m.(*msg.Pong); ok {
-				mu.Lock()
+			mu.Lock()
+			switch p := m.(type) {
+			case *msg.Pong:
 				if p.Error == "" {
 					pok++
 				} else {
 					perr++
 				}
-				mu.Unlock()
+			case *msg.NewProxyResp:
+				if p.Error == "" {
+					resp[p.ProxyName] = "ok"
+				} else {
+					resp[p.ProxyName] = "err"
+				}
 			}
+			mu.Unlock()
 		}
 	}()
 	var sent []string
+	var pxs []wdPx
 	lastValid := time.Duration(0)
 	isClosed := func() bool {
 		select {
@@ -283,6 +422,7 @@ func runWd(port, T int, scope bool, items []wdItem) string {
 			return false
 		}
 	}
+	cut := false
 loop:
 	for _, it := range items {
 		select {
@@ -293,43 +433,122 @@ loop:
 		if isClosed() {
 			break
 		}
-		p := &msg.Ping{}
-		ts := time.Now().Unix()
-		p.Timestamp = ts
-		if it.valid {
-			p.PrivilegeKey = util.GetAuthKey(waitToken, ts)
-		} else {
-			p.PrivilegeKey = "bad" + util.GetAuthKey(waitToken, ts)
+		switch it.kind {
+		case 'x':
+			cut = true
+			mu.Lock()
+			closedAt = time.Since(t0)
+			mu.Unlock()
+			conn.Close()
+			<-closed
+			break loop
+		case 'n':
+			px := wdPx{name: fmt.Sprintf("%sn%d", id, len(pxs)), port: wdPort()}
+			if it.hold > 0 {
+				wdHoldMu.Lock()
+				wdHolds[px.name] = wdHold{wdPoints[it.phase], time.Duration(it.hold) * time.Millisecond}
+				wdHoldMu.Unlock()
+			}
+			px.holdEnd = time.Now().Add(time.Duration(it.hold) * time.Millisecond)
+			if err := msg.WriteMsg(rw, &msg.NewProxy{ProxyName: px.name, ProxyType: "tcp", RemotePort: px.port}); err != nil {
+				break loop
+			}
+			pxs = append(pxs, px)
+		default:
+			p := &msg.Ping{}
+			ts := time.Now().Unix()
+			p.Timestamp = ts
+			if it.kind == 'v' {
+				p.PrivilegeKey = util.GetAuthKey(waitToken, ts)
+			} else {
+				p.PrivilegeKey = "bad" + util.GetAuthKey(waitToken, ts)
+			}
+			at := time.Since(t0)
+			if err := msg.WriteMsg(rw, p); err != nil {
+				break loop
+			}
+			k := "i"
+			if it.kind == 'v' {
+				k = "v"
+			}
+			if it.kind == 'v' || !scope {
+				lastValid = at
+			}
+			sent = append(sent, fmt.Sprintf("%s:%d", k, at.Microseconds()))
 		}
-		at := time.Since(t0)
-		if err := msg.WriteMsg(rw, p); err != nil {
-			break
-		}
-		k := "i"
-		if it.valid {
-			k = "v"
-		}
-		if it.valid || !scope {
-			lastValid = at
-		}
-		sent = append(sent, fmt.Sprintf("%s:%d", k, at.Microseconds()))
 	}
 	horizon := lastValid + time.Duration(T)*time.Second + 2500*time.Millisecond
 	select {
 	case <-closed:
 	case <-time.After(horizon - time.Since(t0)):
 	}
-	// let the last pongs arrive
 	mu.Lock()
-	defer mu.Unlock()
 	ss := strings.Join(sent, ",")
 	if ss == "" {
 		ss = "-"
 	}
-	if closedAt >= 0 {
-		return fmt.Sprintf("closed %d sent=%s pok=%d perr=%d", closedAt.Microseconds(), ss, pok, perr)
+	cAt, open := closedAt, closedAt < 0
+	if open {
+		cAt = time.Since(t0)
 	}
-	return fmt.Sprintf("open %d sent=%s pok=%d perr=%d", time.Since(t0).Microseconds(), ss, pok, perr)
+	np, ne := pok, perr
+	first := map[string]string{}
+	for k, v := range resp {
+		first[k] = v
+	}
+	mu.Unlock()
+	// the session is over (or should be): once every held registration has returned and the server had
+	// 600 ms to finish its teardown, a fresh session must be able to register the same names and ports
+	px := "-"
+	if len(pxs) > 0 && !open {
+		settle := time.Now()
+		for _, p := range pxs {
+			if p.holdEnd.After(settle) {
+				settle = p.holdEnd
+			}
+		}
+		time.Sleep(time.Until(settle.Add(600 * time.Millisecond)))
+		var out []string
+		conn2, rw2, e2 := wdLogin(port)
+		for j, p := range pxs {
+			r1 := first[p.name]
+			if r1 == "" {
+				r1 = "none"
+			}
+			rr := "infra"
+			if e2 == "" {
+				rr = "held"
+				if err := msg.WriteMsg(rw2, &msg.NewProxy{ProxyName: p.name, ProxyType: "tcp", RemotePort: p.port}); err == nil {
+					_ = conn2.SetReadDeadline(time.Now().Add(3 * time.Second))
+					for {
+						m, err := msg.ReadMsg(rw2)
+						if err != nil {
+							rr = "noresp"
+							break
+						}
+						if r, ok := m.(*msg.NewProxyResp); ok && r.ProxyName == p.name {
+							if r.Error == "" {
+								rr = "ok"
+							}
+							break
+						}
+					}
+				}
+			}
+			out = append(out, fmt.Sprintf("%d:%s:%s", j, r1, rr))
+		}
+		if conn2 != nil {
+			conn2.Close()
+		}
+		px = strings.Join(out, ",")
+	}
+	kind := "closed"
+	if open {
+		kind = "open"
+	} else if cut {
+		kind = "cut"
+	}
+	return fmt.Sprintf("%s %d sent=%s pok=%d perr=%d px=%s", kind, cAt.Microseconds(), ss, np, ne, px)
 }
 
 // ---- client-side watchdog and re-login: real frpc + scripted raw server
@@ -338,8 +557,81 @@ loop:
 //
 //	p<k>: accept the login, answer k pings, then stay silent  -> observe when frpc closes
 //	b<k>: accept the login, answer k pings, answer the next with Pong{Error}
+//	c<ms>: accept the login, answer every ping, cut the connection after ms
 //	r   : refuse the login (LoginResp.Error) and close
-func runCw(I, T int, script []string) string {
+//
+// reloads: @<ms>:<set> while connected, @o<ms>:<set> after the connection ended (before the next login is answered)
+type cwReload struct {
+	outage bool
+	ms     int
+	set    string
+}
+
+type cwItem struct {
+	kind    byte
+	arg     int
+	reloads []cwReload
+}
+
+func parseCwItem(s string) cwItem {
+	parts := strings.Split(s, "@")
+	it := cwItem{kind: parts[0][0]}
+	if len(parts[0]) > 1 {
+		it.arg = atoi(parts[0][1:])
+	}
+	for _, r := range parts[1:] {
+		f := strings.SplitN(r, ":", 2)
+		rl := cwReload{set: f[1]}
+		if f[0][0] == 'o' {
+			rl.outage = true
+			rl.ms = atoi(f[0][1:])
+		} else {
+			rl.ms = atoi(f[0])
+		}
+		it.reloads = append(it.reloads, rl)
+	}
+	return it
+}
+
+// "a1+b2" -> tcp proxies named a, b whose remote port encodes the variant; "0" = none
+func cwSet(set string) []v1.ProxyConfigurer {
+	out := []v1.ProxyConfigurer{}
+	if set == "0" || set == "" {
+		return out
+	}
+	for _, e := range strings.Split(set, "+") {
+		c := &v1.TCPProxyConfig{}
+		c.Name = e[:1]
+		c.Type = "tcp"
+		c.LocalIP = "127.0.0.1"
+		c.LocalPort = 9
+		c.RemotePort = 30000 + int(e[0]-'a')*10 + atoi(e[1:])
+		c.Complete("")
+		out = append(out, c)
+	}
+	return out
+}
+
+func cwRegs(reg map[string]int) string {
+	if len(reg) == 0 {
+		return "0"
+	}
+	var l []string
+	for n, v := range reg {
+		l = append(l, fmt.Sprintf("%s%d", n, v))
+	}
+	sort.Strings(l)
+	return strings.Join(l, "+")
+}
+
+const cwSettle = 350 * time.Millisecond
+
+type cwArrival struct {
+	conn net.Conn
+	at   time.Time
+}
+
+func runCw(I, T int, set0 string, script []string) string {
 	l, err := net.Listen("tcp", "127.0.0.1:0")
 	if err != nil {
 		return "infra-listen"
@@ -358,7 +650,7 @@ func runCw(I, T int, script []string) string {
 	cfg.Transport.TLS.Enable = &f
 	cfg.LoginFailExit = &f
 	cfg.Complete()
-	svc, err := client.NewService(client.ServiceOptions{Common: cfg})
+	svc, err := client.NewService(client.ServiceOptions{Common: cfg, ProxyCfgs: cwSet(set0)})
 	if err != nil {
 		return "infra-newservice"
 	}
@@ -367,83 +659,175 @@ func runCw(I, T int, script []string) string {
 	go func() { _ = svc.Run(ctx) }()
 	defer svc.Close()
 
+	// logins are time-stamped when they arrive, whatever the script is doing at that moment
+	arrivals := make(chan cwArrival, 16)
+	go func() {
+		for {
+			conn, err := l.Accept()
+			if err != nil {
+				close(arrivals)
+				return
+			}
+			go func() {
+				_ = conn.SetReadDeadline(time.Now().Add(5 * time.Second))
+				m, err := msg.ReadMsg(conn)
+				if err != nil {
+					conn.Close()
+					return
+				}
+				if _, ok := m.(*msg.Login); !ok {
+					conn.Close()
+					return
+				}
+				_ = conn.SetReadDeadline(time.Time{})
+				arrivals <- cwArrival{conn, time.Now()}
+			}()
+		}
+	}()
+
 	var out []string
 	prevEnd := time.Now() // end of the previous connection (close observed / refusal sent)
-	for _, item := range script {
-		_ = l.(*net.TCPListener).SetDeadline(time.Now().Add(30 * time.Second))
-		conn, err := l.Accept()
-		if err != nil {
+	for _, raw := range script {
+		item := parseCwItem(raw)
+		var a cwArrival
+		select {
+		case a = <-arrivals:
+		case <-time.After(30 * time.Second):
+		}
+		if a.conn == nil {
 			out = append(out, "noconnect")
 			break
 		}
-		_ = conn.SetReadDeadline(time.Now().Add(5 * time.Second))
-		m, err := msg.ReadMsg(conn)
-		if err != nil {
-			conn.Close()
-			out = append(out, "nologin")
-			break
+		conn := a.conn
+		gap := a.at.Sub(prevEnd).Milliseconds()
+		if gap < 0 {
+			gap = 0
 		}
-		if _, ok := m.(*msg.Login); !ok {
-			conn.Close()
-			out = append(out, "notlogin")
-			break
-		}
-		gap := time.Since(prevEnd).Milliseconds()
-		_ = conn.SetReadDeadline(time.Time{})
-		if item == "r" {
+		if item.kind == 'r' {
 			_ = msg.WriteMsg(conn, &msg.LoginResp{Version: version.Full(), Error: "refused by script"})
 			prevEnd = time.Now()
 			conn.Close()
 			out = append(out, fmt.Sprintf("r:%d", gap))
-			continue
-		}
-		k := atoi(item[1:])
-		_ = msg.WriteMsg(conn, &msg.LoginResp{Version: version.Full(), RunID: "verifrun"})
-		tLogin := time.Now()
-		rw, err := netpkg.NewCryptoReadWriter(conn, []byte(waitToken))
-		if err != nil {
-			conn.Close()
-			out = append(out, "infra-crypto")
-			break
-		}
-		lastPong := tLogin // the client sets lastPong at NewControl, just after the login
-		answered, pings := 0, 0
-		var pingGaps []string
-		lastPingAt := tLogin
-		errSentAt := time.Time{}
-		for {
-			_ = conn.SetReadDeadline(time.Now().Add(time.Duration(T)*time.Second + 4*time.Second))
-			m, err := msg.ReadMsg(rw)
+		} else {
+			k := item.arg
+			_ = msg.WriteMsg(conn, &msg.LoginResp{Version: version.Full(), RunID: "verifrun"})
+			tLogin := time.Now()
+			rw, err := netpkg.NewCryptoReadWriter(conn, []byte(waitToken))
 			if err != nil {
+				conn.Close()
+				out = append(out, "infra-crypto")
 				break
 			}
-			if _, ok := m.(*msg.Ping); !ok {
-				continue
+			msgs := make(chan msg.Message, 64)
+			go func() {
+				defer close(msgs)
+				for {
+					_ = conn.SetReadDeadline(time.Now().Add(time.Duration(T)*time.Second + 4*time.Second))
+					m, err := msg.ReadMsg(rw)
+					if err != nil {
+						return
+					}
+					msgs <- m
+				}
+			}()
+			// timeline of this connection: reloads, the check points after the login and after each reload, the cut
+			type action struct {
+				at   time.Duration
+				what byte // 'R' reload, 'S' snapshot, 'X' cut
+				set  string
+				idx  int
 			}
-			pings++
-			pingGaps = append(pingGaps, strconv.FormatInt(time.Since(lastPingAt).Milliseconds(), 10))
-			lastPingAt = time.Now()
-			if answered < k {
-				answered++
-				lastPong = time.Now()
-				_ = msg.WriteMsg(rw, &msg.Pong{})
-			} else if item[0] == 'b' && errSentAt.IsZero() {
-				errSentAt = time.Now()
-				_ = msg.WriteMsg(rw, &msg.Pong{Error: "scripted pong error"})
+			acts := []action{{cwSettle, 'S', "", 0}}
+			snaps := []string{"~"}
+			for _, rl := range item.reloads {
+				if !rl.outage {
+					d := time.Duration(rl.ms) * time.Millisecond
+					acts = append(acts, action{d, 'R', rl.set, 0}, action{d + cwSettle, 'S', "", len(snaps)})
+					snaps = append(snaps, "~")
+				}
+			}
+			if item.kind == 'c' {
+				acts = append(acts, action{time.Duration(item.arg) * time.Millisecond, 'X', "", 0})
+			}
+			sort.SliceStable(acts, func(i, j int) bool { return acts[i].at < acts[j].at })
+			reg := map[string]int{}
+			lastPong := tLogin // the client sets lastPong at NewControl, just after the login
+			answered := 0
+			var pingGaps []string
+			lastPingAt := tLogin
+			errSentAt := time.Time{}
+			cutAt := time.Time{}
+		conn:
+			for {
+				var timer <-chan time.Time
+				if len(acts) > 0 {
+					timer = time.After(time.Until(tLogin.Add(acts[0].at)))
+				}
+				select {
+				case m, ok := <-msgs:
+					if !ok {
+						break conn
+					}
+					switch mm := m.(type) {
+					case *msg.Ping:
+						pingGaps = append(pingGaps, strconv.FormatInt(time.Since(lastPingAt).Milliseconds(), 10))
+						lastPingAt = time.Now()
+						if item.kind == 'c' || answered < k {
+							answered++
+							lastPong = time.Now()
+							_ = msg.WriteMsg(rw, &msg.Pong{})
+						} else if item.kind == 'b' && errSentAt.IsZero() {
+							errSentAt = time.Now()
+							_ = msg.WriteMsg(rw, &msg.Pong{Error: "scripted pong error"})
+						}
+					case *msg.NewProxy:
+						reg[mm.ProxyName] = mm.RemotePort % 10
+						_ = msg.WriteMsg(rw, &msg.NewProxyResp{ProxyName: mm.ProxyName, RemoteAddr: fmt.Sprintf(":%d", mm.RemotePort)})
+					case *msg.CloseProxy:
+						delete(reg, mm.ProxyName)
+					}
+				case <-timer:
+					a := acts[0]
+					acts = acts[1:]
+					switch a.what {
+					case 'R':
+						_ = svc.UpdateAllConfigurer(cwSet(a.set), nil)
+					case 'S':
+						snaps[a.idx] = cwRegs(reg)
+					case 'X':
+						cutAt = time.Now()
+						conn.Close()
+						for range msgs {
+						}
+						break conn
+					}
+				}
+			}
+			end := time.Now()
+			conn.Close()
+			pg := strings.Join(pingGaps, "/")
+			if pg == "" {
+				pg = "-"
+			}
+			sn := strings.Join(snaps, ";")
+			switch {
+			case item.kind == 'c' && !cutAt.IsZero():
+				end = cutAt
+				out = append(out, fmt.Sprintf("c:%d:0:%s:%s", gap, pg, sn))
+			case item.kind == 'b' && !errSentAt.IsZero():
+				out = append(out, fmt.Sprintf("b:%d:%d:%s:%s", gap, end.Sub(errSentAt).Milliseconds(), pg, sn))
+			default:
+				out = append(out, fmt.Sprintf("p:%d:%d:%s:%s", gap, end.Sub(lastPong).Milliseconds(), pg, sn))
+			}
+			prevEnd = end
+		}
+		// reloads during the outage: the next login may already be waiting for its answer
+		for _, rl := range item.reloads {
+			if rl.outage {
+				time.Sleep(time.Duration(rl.ms) * time.Millisecond)
+				_ = svc.UpdateAllConfigurer(cwSet(rl.set), nil)
 			}
 		}
-		end := time.Now()
-		conn.Close()
-		pg := strings.Join(pingGaps, "/")
-		if pg == "" {
-			pg = "-"
-		}
-		if item[0] == 'b' && !errSentAt.IsZero() {
-			out = append(out, fmt.Sprintf("b:%d:%d:%s", gap, end.Sub(errSentAt).Milliseconds(), pg))
-		} else {
-			out = append(out, fmt.Sprintf("p:%d:%d:%s", gap, end.Sub(lastPong).Milliseconds(), pg))
-		}
-		prevEnd = end
 	}
 	return strings.Join(out, ",")
 }
@@ -499,12 +883,12 @@ func (w *waitEngine) exec(tok []string) string {
 					ch <- "PANIC:" + hx(fmt.Sprint(r))
 				}
 			}()
-			ch <- runWd(port, T, scope, items)
+			ch <- runWd(id, port, T, scope, items)
 		}()
 		return "started"
 	case "cwstart":
-		id, I, T := tok[1], atoi(tok[2]), atoi(tok[3])
-		script := strings.Split(tok[4], ",")
+		id, I, T, set0 := tok[1], atoi(tok[2]), atoi(tok[3]), tok[4]
+		script := strings.Split(tok[5], ",")
 		ch := make(chan string, 1)
 		w.mu.Lock()
 		w.jobs[id] = ch
@@ -515,7 +899,7 @@ func (w *waitEngine) exec(tok []string) string {
 					ch <- "PANIC:" + hx(fmt.Sprint(r))
 				}
 			}()
-			ch <- runCw(I, T, script)
+			ch <- runCw(I, T, set0, script)
 		}()
 		return "started"
 	case "wdwait", "cwwait":
@@ -591,12 +975,15 @@ func genWait(rng *rand.Rand, n int, emit func(string)) {
 	emit("reset")
 	// background scenarios first (they run while the back-off ops execute)
 	nwd := 4 + n/400
-	ncw := 1 + n/4000
+	ncw := 2 + n/1500
 	var waits []string
 	for i := 0; i < nwd; i++ {
 		T := 1 + rng.Intn(2)
 		scope := rng.Intn(3) != 0
 		var items []string
+		// registrations: the peer may fall silent / be cut at any moment of a session, in particular while
+		// one of its NewProxy is anywhere between "read from the wire" and "in ctl.proxies"
+		withReg := i%2 == 0 // every run covers every class below: the classes rotate, the details are random
 		k := rng.Intn(5)
 		for j := 0; j < k; j++ {
 			kind := "v"
@@ -611,9 +998,35 @@ func genWait(rng *rand.Rand, n int, emit func(string)) {
 				gap = T*1000 + 1300 + rng.Intn(300) // deliberate silence in the middle of the script
 			}
 			items = append(items, fmt.Sprintf("%s%d", kind, gap))
+			if withReg && rng.Intn(3) == 0 {
+				// a registration that completes at once, somewhere among the pings
+				items = append(items, fmt.Sprintf("n%d/%c/0", 20+rng.Intn(150), "pcra"[rng.Intn(4)]))
+			}
+		}
+		held := false
+		if withReg && (i/2)%5 != 4 {
+			// last thing the peer does: a registration held at one of the four points, then silence or a cut,
+			// ending the connection before / while / after the registration is in flight
+			held = true
+			ph := "pcra"[rng.Intn(4)]
+			switch (i / 2) % 5 {
+			case 0: // silence; the watchdog fires while the registration is still in flight
+				items = append(items, fmt.Sprintf("n%d/%c/%d", 30+rng.Intn(200), ph, T*1000+1200+rng.Intn(700)))
+			case 1: // silence; the registration returns before the watchdog fires
+				items = append(items, fmt.Sprintf("n%d/%c/%d", 30+rng.Intn(200), ph, 100+rng.Intn(400)))
+			case 2: // cut while in flight
+				items = append(items, fmt.Sprintf("n%d/%c/%d", 30+rng.Intn(200), ph, 400+rng.Intn(500)),
+					fmt.Sprintf("x%d", 60+rng.Intn(250)))
+			default: // cut after it returned
+				items = append(items, fmt.Sprintf("n%d/%c/%d", 30+rng.Intn(200), ph, 50+rng.Intn(150)),
+					fmt.Sprintf("x%d", 350+rng.Intn(250)))
+			}
+		} else if withReg && rng.Intn(2) == 0 {
+			items = append(items, fmt.Sprintf("n%d/p/0", 20+rng.Intn(150)), fmt.Sprintf("x%d", 100+rng.Intn(400)))
+			held = true
 		}
 		// a tail of invalid pings during the final silence (must not keep the session alive when scope is on)
-		if rng.Intn(2) == 0 {
+		if !held && rng.Intn(2) == 0 {
 			for j := 0; j < 2+rng.Intn(4); j++ {
 				items = append(items, fmt.Sprintf("i%d", 200+rng.Intn(400)))
 			}
@@ -626,19 +1039,72 @@ func genWait(rng *rand.Rand, n int, emit func(string)) {
 		emit(fmt.Sprintf("wdstart %s %d %d %s", id, T, map[bool]int{false: 0, true: 1}[scope], sc))
 		waits = append(waits, "wdwait "+id)
 	}
+	// proxy sets: subsets of four names in two variants; now and then a name twice (lo.KeyBy: the last wins)
+	genSet := func() string {
+		var e []string
+		for _, nm := range "abcd" {
+			if rng.Intn(5) < 2 {
+				e = append(e, fmt.Sprintf("%c%d", nm, 1+rng.Intn(2)))
+			}
+		}
+		if len(e) > 0 && rng.Intn(6) == 0 {
+			e = append(e, fmt.Sprintf("%c%d", e[0][0], 1+rng.Intn(2)))
+		}
+		if len(e) == 0 {
+			return "0"
+		}
+		return strings.Join(e, "+")
+	}
 	for i := 0; i < ncw; i++ {
 		T := 2 + rng.Intn(2)
 		var items []string
-		switch rng.Intn(3) {
+		switch i % 5 {
 		case 0:
 			items = []string{fmt.Sprintf("p%d", rng.Intn(3)), "r", "p0"}
-		case 1:
+		case 2:
 			items = []string{fmt.Sprintf("b%d", rng.Intn(3)), fmt.Sprintf("p%d", 1+rng.Intn(2))}
-		default:
+		case 4:
 			items = []string{"r", fmt.Sprintf("p%d", rng.Intn(2)), "b0"}
+		default:
+			// connection losses, refused logins and silent servers in any order (at most two refusals: each
+			// costs a doubling back-off), ended by a connection that lives long enough to be inspected
+			k := 2 + rng.Intn(3)
+			refusals := 0
+			for j := 0; j < k; j++ {
+				switch r := rng.Intn(10); {
+				case r < 5:
+					items = append(items, fmt.Sprintf("c%d", 500+rng.Intn(1000)))
+				case r < 8 && refusals < 2:
+					items = append(items, "r")
+					refusals++
+				case r < 9:
+					items = append(items, "p0")
+				default:
+					items = append(items, fmt.Sprintf("b%d", rng.Intn(2)))
+				}
+			}
+			items = append(items, fmt.Sprintf("c%d", 500+rng.Intn(300)))
+		}
+		// configuration reloads at any moment: while connected, and during an outage (after a connection ended
+		// or a login was refused, before the next login is answered)
+		forced := -1
+		if i%5 == 1 || i%5 == 3 {
+			forced = rng.Intn(len(items) - 1) // at least one reload during an outage
+		}
+		for j := range items {
+			base := items[j]
+			if (base[0] == 'c' && atoi(base[1:]) >= 1000 || base[0] == 'p') && rng.Intn(3) == 0 {
+				items[j] += fmt.Sprintf("@%d:%s", 400+rng.Intn(150), genSet())
+			}
+			if j < len(items)-1 && (rng.Intn(2) == 0 || j == forced) {
+				items[j] += fmt.Sprintf("@o%d:%s", rng.Intn(400), genSet())
+				if rng.Intn(4) == 0 {
+					items[j] += fmt.Sprintf("@o%d:%s", rng.Intn(200), genSet())
+				}
+			}
 		}
 		id := fmt.Sprintf("c%d", i)
-		emit(fmt.Sprintf("cwstart %s 1 %d %s", id, T, strings.Join(items, ",")))
+		emit(fmt.Sprintf("cwstart %s 1 %d %s %s", id, T, genSet(), strings.Join(items, ",")))
 		waits = append(waits, "cwwait "+id)
 	}
 	budget := n - len(waits)*2 - 1
